@@ -124,8 +124,36 @@ impl Scenario for C05 {
                 s.push_str(if crlf_file || rng.chance(1, 10) { "\r\n" } else { "\n" });
             }
         }
+        if rng.chance(1, 80) {
+            // a line longer than 64 KiB (whose tail would read as a header if the line were split)
+            let n = 65_530 + rng.below(40);
+            let long = format!("Tags:{}[Difficulty]", "x".repeat(n.saturating_sub(17)));
+            let at = s.find('\n').map_or(0, |i| i + 1);
+            s.insert_str(at, &format!("{long}\n"));
+        }
         let e = rng.below(4);
         p.data = encode_text(&s, ENCS[e]);
+        if e < 2 && rng.chance(1, 12) {
+            // byte-level damage in UTF-8 storage: invalid bytes inside a line, or a character cut off at the very end
+            match rng.below(3) {
+                0 => {
+                    while p.data.last().map_or(false, |b| *b == b'\n' || *b == b'\r') {
+                        p.data.pop();
+                    }
+                    p.data.extend_from_slice(*rng.pick(&[&[0xE3u8, 0x81][..], &[0xF0, 0x9F], &[0xC3], &[0x20, 0xE2, 0x82]]));
+                }
+                1 => {
+                    let at = rng.below(p.data.len() + 1);
+                    p.data.insert(at, *rng.pick(&[0xFFu8, 0x80, 0xC0, 0xFE]));
+                }
+                _ => {
+                    let at = rng.below(p.data.len() + 1);
+                    let seq: &[u8] = *rng.pick(&[&[0xE3u8, 0x81][..], &[0xED, 0xA0, 0x80], &[0xF0, 0x9F, 0x98]]);
+                    p.data.splice(at..at, seq.iter().copied());
+                }
+            }
+            p.faults.push("S6-invalid-utf8".into());
+        }
         p.set("enc", e as i64);
         p.set("dec", if rng.chance(1, 2) { 0 } else { 1 + rng.below(9) as i64 });
         plan_transport(&mut rng, &mut p, true);
